@@ -31,7 +31,7 @@ ASSUMPTIONS = [
 RULE = ('random bodies over {a,b,c,\\n} (len 0..20) x Content-Length in {absent, exact, shorter, longer, 0} x short-read oracles / '
         'ASGI event shapes (missing body/more_body keys, empty and oversized chunks, disconnect anywhere) x histories of 1..7 operations; '
         'a third of the cases go through falcon.Request.bounded_stream / falcon.asgi.Request.stream; '
-        'non-trivial = at least one operation returned data; distinct = distinct (stream kind, construction line, op list)')
+        'plus, for the WSGI stream, ALL histories of length <= 3 (quick) / <= 4 (thorough) over a 7-operation alphabet on 18 (body, Content-Length, short-read) combinations; non-trivial = at least one operation returned data; distinct = distinct (stream kind, construction line, op list)')
 PARTIAL = ''
 JOBS = {'quick': 4, 'thorough': 16}
 
@@ -72,13 +72,10 @@ def _wsgi(ctx):
 
     sess = ctx.session('wsgi-boundedstream = Ws7F model', 'w7fdriver',
                        norm=lambda s: s.replace('lines  ', 'lines '))
-    for ci in range(ctx.n(8000, 120000)):
-        L = rnd.choice([0, 1, 3, 6, 10, 15, 20])
-        data = bytes(rnd.choice(b'ab\n\n') for _ in range(L))
-        cl = rnd.choice([L, L, max(0, L - 2), max(0, L - 5), L + 3, 0])
-        shorts = [rnd.choice([0, 0, 1, 2]) for _ in range(rnd.randint(0, 6))]
+
+    def wcase(data, cl, shorts, via_req, ops, tag):
+        L = len(data)
         raw = Raw(data, shorts)
-        via_req = rnd.random() < 0.33
         if via_req:
             env = ft.create_environ(method='POST', path='/', headers={'Content-Length': str(cl)})
             env['wsgi.input'] = raw
@@ -86,40 +83,35 @@ def _wsgi(ctx):
         else:
             s = BoundedStream(raw, cl)
         newline = f"new {cl} {hx(data)} {','.join(map(str, shorts)) or '-'}"
-        sess.case({'via_request': via_req}); sess.op(newline, 'ok')
+        sess.case({'via_request': via_req, 'gen': tag}); sess.op(newline, 'ok')
         decl = data[:cl]; got = b''; hist = []; nontriv = False
 
         def st():
             return f" rem={s._bytes_remaining} eof={'true' if s.eof else 'false'} asked={raw.asked}"
         failed = None
-        for _ in range(rnd.randint(1, 7)):
-            op = rnd.choice(['read', 'read', 'readline', 'readline', 'readlines', 'next', 'exhaust'])
+        for op, n in ops:
+            hist.append([op, n])
             try:
                 with alarm(3):
                     if op == 'read':
-                        n = rnd.choice([None, -1, -2, 0, 1, 2, 5, 100]); hist.append(['read', n])
                         d = s.read(n); sess.op(f"read {'none' if n is None else n}", 'data ' + hx(d) + st())
                         if n is not None and n >= 0 and len(d) > n: failed = f'sized read returned {len(d)} > {n}'
                         got += d
                     elif op == 'readline':
-                        n = rnd.choice([None, -1, 0, 1, 3, 100]); hist.append(['readline', n])
                         d = s.readline(n); sess.op(f"readline {'none' if n is None else n}", 'data ' + hx(d) + st())
                         if n is not None and n >= 0 and len(d) > n: failed = f'sized readline returned {len(d)} > {n}'
                         if b'\n' in d[:-1]: failed = 'readline returned more than one line'
                         got += d
                     elif op == 'readlines':
-                        n = rnd.choice([None, -1, 0, 2, 100]); hist.append(['readlines', n])
                         d = s.readlines(n); sess.op(f"readlines {'none' if n is None else n}", ('lines ' + ' '.join(hx(x) for x in d)) + st())
                         got += b''.join(d)
                     elif op == 'next':
-                        hist.append(['next'])
                         try:
                             d = next(s); sess.op('next', 'data ' + hx(d) + st()); got += d
                         except StopIteration:
                             sess.op('next', 'stop' + st())
                     else:
-                        c = rnd.choice([1, 4, 65536]); hist.append(['exhaust', c])
-                        s.exhaust(c); sess.op(f'exhaust {c}', 'unit' + st())
+                        s.exhaust(n); sess.op(f'exhaust {n}', 'unit' + st())
                         if not s.eof and len(data) >= cl: failed = 'eof is False after exhaust() although the whole declared body was available'
                         if decl.startswith(got): got = decl  # exhaust discards the rest of the declared body
             except Hang:
@@ -140,6 +132,32 @@ def _wsgi(ctx):
                    failed is None, failed, {'stream': 'wsgi', 'body': data, 'content_length': cl, 'shorts': shorts, 'history': hist, 'via_request': via_req})
         ctx.seen(('w', newline, str(hist)), nontriv)
         ctx.count('wsgi_cl_' + ('exact' if cl == L else 'shorter' if cl < L else 'longer'))
+
+    # exhaustive short histories (length <= 3 quick / <= 4 thorough) over a 7-op alphabet on fixed bodies
+    import itertools
+    ALPHA = [('read', None), ('read', 2), ('readline', None), ('readline', 1), ('readlines', None), ('next', None), ('exhaust', 4)]
+    combos = [(d, c, sh) for d in (b'a\nb\n', b'ab\n\ncd', b'xyz') for c in (len(d), len(d) - 2, len(d) + 2) for sh in ([], [1, 0, 2])]
+    maxlen = 3 if ctx.quick else 4
+    k = 0
+    for data, cl, sh in combos:
+        for n in range(1, maxlen + 1):
+            for ops in itertools.product(ALPHA, repeat=n):
+                k += 1
+                if k % ctx.shard[1] != ctx.shard[0] or ctx.searching:
+                    continue
+                wcase(data, cl, sh, k % 3 == 0, list(ops), 'exhaustive')
+    # random longer histories
+    for ci in range(ctx.n(8000, 120000)):
+        L = rnd.choice([0, 1, 3, 6, 10, 15, 20])
+        data = bytes(rnd.choice(b'ab\n\n') for _ in range(L))
+        cl = rnd.choice([L, L, max(0, L - 2), max(0, L - 5), L + 3, 0])
+        shorts = [rnd.choice([0, 0, 1, 2]) for _ in range(rnd.randint(0, 6))]
+        ops = []
+        for _ in range(rnd.randint(1, 7)):
+            op = rnd.choice(['read', 'read', 'readline', 'readline', 'readlines', 'next', 'exhaust'])
+            n = {'read': [None, -1, -2, 0, 1, 2, 5, 100], 'readline': [None, -1, 0, 1, 3, 100], 'readlines': [None, -1, 0, 2, 100], 'next': [None], 'exhaust': [1, 4, 65536]}[op]
+            ops.append((op, rnd.choice(n)))
+        wcase(data, cl, shorts, rnd.random() < 0.33, ops, 'random')
     sess.finish()
 
 
